@@ -106,6 +106,36 @@ func c04(r *core.Run) {
 		writers := map[string]bool{}
 		for _, a := range acc {
 			if a.Write {
+				// the flag's address handed to a helper that only reads through it is a read
+				if strings.HasPrefix(a.Kind, "addr-call") {
+					if c, ok := a.Instr.(ssa.CallInstruction); ok {
+						if cal := c.Common().StaticCallee(); cal != nil && len(cal.Blocks) > 0 {
+							readOnly := true
+							for i, arg := range c.Common().Args {
+								if arg != a.Addr || i >= len(cal.Params) {
+									continue
+								}
+								prm := cal.Params[i]
+								if prm.Referrers() != nil {
+									for _, rf := range *prm.Referrers() {
+										switch x := rf.(type) {
+										case *ssa.UnOp, *ssa.DebugRef:
+										case *ssa.Store:
+											if x.Addr == ssa.Value(prm) || x.Val == ssa.Value(prm) {
+												readOnly = false
+											}
+										default:
+											readOnly = false
+										}
+									}
+								}
+							}
+							if readOnly {
+								continue
+							}
+						}
+					}
+				}
 				writers[core.FuncName(a.Fn)] = true
 			}
 		}
